@@ -19,6 +19,17 @@ LEAVES = ['role:admin', 'role:member', 'role:reader', 'role:role1', 'is_admin:Tr
           'user.domain.id:default', "'x':%(nested.key)s", 'True:%(flag)s', '@', '!', 'rule:admin_required', 'rule:owner', 'rule:nope']
 
 
+def _flat(d, prefix=''):
+    out = {}
+    for k, v in d.items():
+        kk = prefix + '.' + k if prefix else k
+        if isinstance(v, dict):
+            out.update(_flat(v, kk))
+        else:
+            out[kk] = v
+    return out
+
+
 def gen_token(rng):
     scope = rng.choice(['project', 'domain', 'system', 'unscoped'])
     tok = {'methods': ['password'], 'roles': [{'id': 'i%d' % i, 'name': n} for i, n in
@@ -65,6 +76,13 @@ def run(ctx, rep):
                 tfile = {'user_id': ctx.rng.choice(['u1', 'u2']), 'project_id': ctx.rng.choice(['p1', 'p2', 'tenant']),
                          'nested': {'key': ctx.rng.choice(['x', 'y']), 'deep': {'er': 1}}, 'flag': ctx.rng.choice([True, False, 'True']),
                          'domain_id': ctx.rng.choice(['d1', 'default'])}
+                r = ctx.rng.random()
+                if r < 0.12:
+                    tfile = {}                                   # a target file that says: nothing is known about the target
+                elif r < 0.2:
+                    tfile = {'nested': {'deep': {}}, 'meta': {}}  # flattens to nothing
+                elif r < 0.3:
+                    tfile = {'nested': {'key': 'x'}}             # no user_id / project_id
             requested = None
             if ctx.rng.random() < 0.3:
                 requested = ctx.rng.choice(names + ['admin_required'] + (['svc:undefined'] if 'default' in rules else []))
@@ -109,6 +127,18 @@ def run(ctx, rep):
             got_names = [c[0] for c in calls]
             if got_names != want_names:
                 rep.fail(key, 'oslopolicy-checker evaluated %r, expected %r' % (got_names, want_names), {'rules': rules})
+            # the target derived from the files: the flattened target file when one is given, else the caller's own ids
+            if tfile is not None:
+                want_tgt = _flat(tfile)
+            else:
+                want_tgt = {'user_id': tok['user']['id']}
+                if tok.get('project'):
+                    want_tgt['project_id'] = tok['project']['id']
+            for (k, tgt, creds) in calls[:1]:
+                if tgt != want_tgt:
+                    rep.fail(key + '|target', 'oslopolicy-checker evaluates against target %r; the files say %r (target file %r)'
+                             % (tgt, want_tgt, tfile), {'rules': rules, 'token': tok, 'target_file': tfile})
+            rep.stat('target_file:' + ('none' if tfile is None else 'empty' if not _flat(tfile) else 'given'))
             # what the library would decide for the credentials and target the tool derived
             enf = policy.Enforcer(impl.new_conf(), use_conf=False, default_rule='default')
             enf.set_rules(policy.Rules.load(json.dumps(rules), 'default'), use_conf=False)
